@@ -91,6 +91,21 @@ impl DiskCache {
     }
 }
 
+// verification hook: read-only view of the tracked items (key, range, file length, checksum)
+#[cfg(huggingface_xet_core_verif)]
+impl DiskCache {
+    pub fn verif_snapshot(&self) -> Result<Vec<(Key, ChunkRange, u64, u32)>, ChunkCacheError> {
+        let state = self.state.lock()?;
+        let mut out = Vec::new();
+        for (key, items) in state.inner.iter() {
+            for item in items.iter() {
+                out.push((key.clone(), item.range, item.len, item.checksum));
+            }
+        }
+        Ok(out)
+    }
+}
+
 impl DiskCache {
     pub fn num_items(&self) -> Result<usize, ChunkCacheError> {
         let state = self.state.lock()?;
@@ -243,6 +258,8 @@ impl DiskCache {
             let Some(cache_item) = self.find_match(key, range)? else {
                 return Ok(None);
             };
+            #[cfg(huggingface_xet_core_verif)]
+            utils::verif_hooks::sched_point("get:after-find");
 
             let path = self.item_path(key, &cache_item)?;
 
@@ -256,6 +273,8 @@ impl DiskCache {
                     _ => return Err(e.into()),
                 },
             };
+            #[cfg(huggingface_xet_core_verif)]
+            utils::verif_hooks::sched_point("get:after-open");
 
             if !cache_item.is_verified() {
                 let checksum = crc32_from_reader(&mut file)?;
@@ -322,6 +341,8 @@ impl DiskCache {
                 return Ok(());
             }
         }
+        #[cfg(huggingface_xet_core_verif)]
+        utils::verif_hooks::sched_point("put:after-find");
 
         let header = CacheFileHeader::new(chunk_byte_indices);
         let mut header_buf = Vec::with_capacity(header.header_len());
@@ -347,6 +368,8 @@ impl DiskCache {
             fw.write_all(data)?;
             fw.close()?;
         }
+        #[cfg(huggingface_xet_core_verif)]
+        utils::verif_hooks::sched_point("put:after-write");
 
         // evict items after ensuring the file write but before committing to cache state
         // to avoid removing new item.
@@ -392,13 +415,21 @@ impl DiskCache {
 
         // release lock
         drop(state);
+        #[cfg(huggingface_xet_core_verif)]
+        utils::verif_hooks::sched_point("put:after-commit");
 
         // remove files after done with modifying in memory state and releasing lock
         for path in overlapping_item_paths {
+            #[cfg(huggingface_xet_core_verif)]
+            utils::verif_hooks::sched_point("put:before-rm-subsumed");
             remove_file(&path)?;
         }
         for path in evicted_paths {
+            #[cfg(huggingface_xet_core_verif)]
+            utils::verif_hooks::sched_point("put:before-rm-evicted");
             remove_file(&path)?;
+            #[cfg(huggingface_xet_core_verif)]
+            utils::verif_hooks::sched_point("put:before-rmdir");
             // check and try to remove key path if all items evicted for key
             let dir_path = path.parent().ok_or(ChunkCacheError::Infallible)?;
             check_remove_dir(dir_path)?;
@@ -429,6 +460,8 @@ impl DiskCache {
             self.remove_item(key, cache_item)?;
             return Ok(false);
         };
+        #[cfg(huggingface_xet_core_verif)]
+        utils::verif_hooks::sched_point("put:validate-after-open");
         let md = file.metadata()?;
         if md.len() != cache_item.len {
             self.remove_item(key, cache_item)?;
@@ -517,6 +550,9 @@ impl DiskCache {
         if num_items == 0 {
             return None;
         }
+        #[cfg(huggingface_xet_core_verif)]
+        let random_item = utils::verif_hooks::random_u64().map(|v| v as usize).unwrap_or_else(rand::random::<usize>) % num_items;
+        #[cfg(not(huggingface_xet_core_verif))]
         let random_item = rand::random::<usize>() % num_items;
         let mut count = 0;
         for (key, items) in state.inner.iter() {
@@ -546,6 +582,8 @@ impl DiskCache {
                 state.num_items -= 1;
             }
         }
+        #[cfg(huggingface_xet_core_verif)]
+        utils::verif_hooks::sched_point("rm:after-state");
 
         let path = self.item_path(key, cache_item)?;
 
